@@ -227,6 +227,24 @@ def showSpans (w : List Nat) (l : List (Nat × Nat)) : String :=
   let offs := byteOffsets w
   if l.isEmpty then "-" else ",".intercalate (l.map fun p => s!"{offs.getD p.1 0}:{offs.getD p.2 0}")
 
+/-- One delimiter instance of `Generated/ScannerConsts.lean`: the delimiter texts handed to
+    `format_block_comment`, their meaning as character sequences, the real output and its AST. -/
+structure BlockCase where
+  key : String
+  full : String
+  sTxt : String
+  eTxt : String
+  s : List Nat
+  e : List Nat
+  text : String
+  re : Re
+
+structure LineCase where
+  sTxt : String
+  s : List Nat
+  text : String
+  re : Re
+
 def cpString (s : String) : String := Proto.showNats (s.toList.map Char.toNat)
 
 def ofCps (l : List Nat) : String := String.ofList (l.map Char.ofNat)
@@ -243,6 +261,30 @@ def handleFmt : List String → Option String
     | .error .dangling => some "err dangling"
     | .error .emptyEnd => some "err empty"
     | .error .tooLong => some "err too-long"
+  | _ => none
+
+def showRaw (w : List Nat) (tok : Nat) (re : Re) : String :=
+  match tokenizeSpec [{ terms := [⟨re, tok, none⟩], trans := [] }] w with
+  | none => "fuel-exhausted"
+  | some ts => showToks w ts
+
+-- @handler blk handleBlk
+/-- `blk <key> <s-txt> <e-txt> <s> <e> <re> <text>` → tokens of the spec tokenizer for a scanner
+    whose only terminal is the (real, lowered) block comment regex `re`. -/
+def handleBlk : List String → Option String
+  | [_, _, _, _, _, r, w] => do
+    let r ← Re.dec r
+    let w ← Proto.parseNats w
+    some (showRaw w 4 r)
+  | _ => none
+
+-- @handler line handleLine
+/-- `line <s-txt> <s> <re> <text>`. -/
+def handleLine : List String → Option String
+  | [_, _, r, w] => do
+    let r ← Re.dec r
+    let w ← Proto.parseNats w
+    some (showRaw w 3 r)
   | _ => none
 
 def parseSpans (s : String) : Option (List (Nat × Nat)) :=
